@@ -1,0 +1,17 @@
+//go:build verif
+
+package l1infotreesync
+
+import (
+	"github.com/agglayer/aggkit/sync"
+	aggkittypes "github.com/agglayer/aggkit/types"
+	"github.com/ethereum/go-ethereum/common"
+)
+
+// Verification hook (build tag verif) for the contract oracle: the downloader's own log -> Event conversion
+// (buildAppender) for the given global exit root / rollup manager contracts. The rollup manager of the oracle is the
+// repository's VerifyBatchesMock, hence FlagAllowWrongContractsAddrs (as in e2e_test.go). No logic lives here.
+func VerifBuildAppender(client aggkittypes.BaseEthereumClienter, globalExitRoot, rollupManager common.Address,
+) (sync.LogAppenderMap, error) {
+	return buildAppender(client, globalExitRoot, rollupManager, FlagAllowWrongContractsAddrs)
+}
